@@ -304,6 +304,7 @@ type hsObs struct {
 	RanOK                        string // method whose exchange completed on the wire ("" none)
 	MsgOK                        bool
 	Leak                         bool // a marker was visible in clear on the wire
+	CmdsOK                       bool // the client's ValidCommands names the command it asked for
 	WireErr                      string
 	CErrText, SErrText           string
 }
@@ -427,6 +428,11 @@ func runHonest(sp hsSpec) hsObs {
 		o.SidEq = cr.Neg.SessionId != "" && cr.Neg.SessionId == sr.Neg.SessionId
 		o.KeyEq = bytes.Equal(cr.Key, sr.Key)
 		o.KeyLen = len(cr.Key)
+		want := sp.C.Command
+		if want < 0 {
+			want = 60010 // DC_AUTHENTICATE stands in for an auth-only handshake
+		}
+		o.CmdsOK = cr.Neg.ValidCommands == fmt.Sprintf("%d", want)
 		// a message each way, straight after
 		off := tap.Len(true)
 		offS := tap.Len(false)
@@ -522,6 +528,9 @@ func judge(sp hsSpec, o hsObs) (string, string) {
 		if !o.Denied {
 			return "no-explicit-denial", "handshake failed but the client received no explicit denial (ReturnCode) from the server: " + o.CErrText
 		}
+		if !strings.Contains(o.CErrText, "DENIED") {
+			return "denial-not-surfaced", "the server's denial (ReturnCode=DENIED) was on the wire but the client's error does not carry it: " + o.CErrText
+		}
 		return "", ""
 	}
 	if o.CErr || o.SErr {
@@ -552,6 +561,9 @@ func judge(sp hsSpec, o hsObs) (string, string) {
 	}
 	if !o.KeyEq || (o.CReal && o.KeyLen != 32) {
 		return "key", "the two ends do not hold the same key"
+	}
+	if !o.CmdsOK {
+		return "valid-commands", "the client's session does not list the command it authenticated for"
 	}
 	if !o.MsgOK {
 		return "msg", "a message each way straight after the handshake failed"
